@@ -45,6 +45,7 @@ def run(ctx):
     r7(ctx, lib)
     r8(ctx, lib)
     r8b(ctx, lib)
+    r8c(ctx, lib)
     r9(ctx, lib)
     r10(ctx, lib)
     r11(ctx, lib)
@@ -340,6 +341,15 @@ def r5(ctx, lib):
                   'a path from the overwrite\'s Err edge returns (bb%s) without restoring dest from the backup' % off)
         rv = return_variants_from(b, e)
         ctx.check('Ok' not in rv and 'Err' in rv, rule, P + '|overwrite-failure-returns-err', ov.where(), 'overwrite failure returns Err', 'overwrite failure can return %s' % sorted(rv))
+    # putting the data back (a clone into the file, or the rename of the backup) gives the file a new modification time: the file was NOT processed,
+    # so on every path from the overwrite's Err edge to the return its time stamps are put back too
+    tsr = [c for c in b.calls(r'reflink::restore_metadata$') if role5(c.args[0]) == 'dest']
+    for e in swo['err']:
+        okt, offt = b.must_pass(e, lambda x: x in {c.bb for c in tsr})
+        ctx.check(bool(tsr) and okt, rule, P + '|failed-clone-keeps-the-timestamps', (tsr[0].where() if tsr else ov.where()), 'after a failed overwrite the time stamps of the destination are restored on every path to the return',
+                  'when the clone of the retained file into the duplicate fails (EINVAL for a NOCOW/COW mix, EXDEV between bind mounts, EPERM, ENOSPC, EIO) the data are put back by a second clone - '
+                  'which sets mtime to now - and the error is returned before reflink() gets to restore_metadata: "Processed 0 files", the bytes are intact, but the unprocessed file has a new '
+                  'modification time, and every later run with the same report refuses its group ("was updated after ..."): a transient failure makes the report unusable for the files that need the retry')
     for c in restore:
         cat, det = err_handling(b, c)
         ctx.check(cat in ('LOGGED', 'PROPAGATED', 'ERR-RETURNED'), rule, P + '|restore-failure-logged', c.where(), 'restore failure is %s' % cat, 'restore failure is %s %s' % (cat, det))
@@ -606,6 +616,52 @@ def r11(ctx, lib):
               'reflink() remembers the time stamps of the parent directory, creates and removes its temporary file there and writes the remembered values back - while the commands of other groups do the '
               'same in the same directory at the same time: the second command takes its snapshot after the first has created its temporary file (it remembers "now"), and when it finishes last it '
               '"restores" that: `dedupe` of 300 pairs changes the modification time of the directories it promises to keep in 5 runs of 5 - also when every command fails - and never with one thread')
+
+
+def r8c(ctx, lib):
+    """... and when the NAME is too short to absorb the excess (a file `f` in a directory whose path is 4089 bytes long), shortening it is not
+    enough: the command is refused beforehand - at script generation, so that the dry run agrees - by a test of the temporary path itself"""
+    rule = 'C05.R8'
+    cp = lib.body('dedupe::FsCommand::check_preconditions')
+    if cp is None:
+        ctx.missing(rule, 'dedupe::FsCommand::check_preconditions')
+        return
+    from ..callgraph import CallGraph
+    from ..analysis import slice_const_values
+    cg = CallGraph([lib])
+    tested = None
+    for c in cp.calls(r'^dedupe::FsCommand::check_\w+$'):
+        for k in sorted(cg.reachable([c.path])) if c.path in cg.bodies else []:
+            hb = cg.bodies[k]
+            tf = hb.calls(r'FsCommand::temp_file$')
+            if not tf:
+                continue
+            vals = [str(v) for blk in hb.blocks for st in blk['stmts'] for v in [st['rv'].get('op', {}).get('k', {}).get('v') if isinstance(st['rv'].get('op'), dict) and isinstance(st['rv'].get('op').get('k'), dict) else None] if v]
+            vals += [str(x) for x in _consts_of(hb)]
+            if any(re.search(r'PATH_MAX|\b409[56]\b', v) for v in vals) and 'Err' in return_variants_from(hb, 0):
+                tested = (hb, tf[0])
+    ctx.check(tested is not None, rule, cp.path + '|temporary-path-tested-beforehand', (tested[1].where() if tested else cp.where()),
+              'a command whose temporary sibling cannot fit into PATH_MAX is refused when the script is generated (%s)' % (tested[0].path.rsplit('::', 1)[-1] if tested else '-'),
+              'the excess of the temporary path over PATH_MAX is taken from the file NAME only: when the name is shorter than the excess - a file `f` in a directory whose path is longer than 4070 bytes - '
+              'the temporary path is still too long, rename(2) fails with ENAMETOOLONG, and `link` / `link --soft` / `dedupe` never process a file that --dry-run lists and counts')
+
+
+def _consts_of(body):
+    out = []
+    for blk in body.blocks:
+        for st in blk['stmts']:
+            rv = st['rv']
+            for o in ([rv.get('op')] if isinstance(rv.get('op'), dict) else []) + [o for o in (rv.get('ops') or []) if isinstance(o, dict)] + [rv.get(x) for x in ('a', 'b') if isinstance(rv.get(x), dict)]:
+                k = o.get('k') if isinstance(o, dict) else None
+                if isinstance(k, dict):
+                    out.append(str(k.get('v') or k.get('item') or k))
+        t = blk['term']
+        if t['k'] == 'call':
+            for a in t.get('args', []):
+                k = a.get('k') if isinstance(a, dict) else None
+                if isinstance(k, dict):
+                    out.append(str(k.get('v') or k.get('item') or k))
+    return out
 
 
 WRAPPERS = {
